@@ -869,23 +869,30 @@ def scan_text(lines):
 
 def index_zero_signature(lines, ff):
     """signature of F-C13-4: a block interaction line refers to an atom by the index 0 and the loaded
-    interaction names the last atom of the block"""
-    sec, top, has_zero = None, None, False
+    interaction names the last atom of the block (or that block was replaced by a later declaration of
+    the same name, so that only the acceptance of the index is observable)"""
+    sec, top, names, zero_blocks = None, None, [], set()
     for raw in lines:
         t = raw.split(';', 1)[0].strip()
         if t.startswith('[') and t.endswith(']'):
             name = t.strip('[ ]').casefold()
             if name in ('moleculetype', 'link', 'modification', 'macros', 'variables', 'citations'):
                 top, sec = name, None
+                if name == 'moleculetype':
+                    names.append(None)
             else:
                 sec = name
+        elif t and top == 'moleculetype' and sec is None and names and names[-1] is None:
+            names[-1] = t.split()[0]
         elif t and top == 'moleculetype' and sec not in (None, 'atoms', 'edges', 'citation', 'meta'):
             toks = t.split('--')[0].split()
             n = NATOMS.get(sec)
             if '0' in (toks[:n] if n is not None else toks):
-                has_zero = True
-    if not has_zero or ff is None:
+                zero_blocks.add(len(names) - 1)
+    if not zero_blocks or ff is None:
         return False
+    if any(names[k] in names[k + 1:] for k in zero_blocks):
+        return True
     return any(list(b.nodes)[-1] in it.atoms for b in ff.blocks.values() if len(b.nodes)
                for its in b.interactions.values() for it in its)
 
